@@ -11,6 +11,7 @@ import (
 	"github.com/ovh/kmip-go"
 	"github.com/ovh/kmip-go/payloads"
 	"github.com/ovh/kmip-go/ttlv"
+	"verifharness/enum"
 	"verifharness/pinned"
 )
 
@@ -210,6 +211,24 @@ func KeyBlocks() []kmip.KeyBlock {
 		// plain key value without attributes
 		kmip.KeyBlock{KeyFormatType: kmip.KeyFormatTypeRaw, KeyValue: &kmip.KeyValue{Plain: &kmip.PlainKeyValue{KeyMaterial: kmip.KeyMaterial{Bytes: bytesp([]byte{})}}}},
 	)
+	// every big integer of the boundary alphabet as an EC private scalar / RSA public modulus
+	for i, b := range BigValues() {
+		if i%2 == 0 {
+			out = append(out, kmip.KeyBlock{KeyFormatType: kmip.KeyFormatTypeTransparentECPrivateKey, KeyValue: plain(kmip.KeyMaterial{TransparentECPrivateKey: &kmip.TransparentECPrivateKey{RecommendedCurve: kmip.RecommendedCurveP_256, D: *b}})})
+		} else {
+			out = append(out, kmip.KeyBlock{KeyFormatType: kmip.KeyFormatTypeTransparentRSAPublicKey, KeyValue: plain(kmip.KeyMaterial{TransparentRSAPublicKey: &kmip.TransparentRSAPublicKey{Modulus: *b, PublicExponent: *big.NewInt(3)}})})
+		}
+	}
+	return out
+}
+
+// BigValues: big integers around byte and 8-byte boundaries, both signs (plus magnitudes whose top byte is 0xFF).
+func BigValues() []*big.Int {
+	out := append([]*big.Int{}, enum.BigAlphabet(false)...)
+	for _, s := range []string{"-65281", "-16711681", "-18446744073709551361", "65281", "-72057594037927681"} {
+		b, _ := new(big.Int).SetString(s, 10)
+		out = append(out, b)
+	}
 	return out
 }
 
